@@ -382,7 +382,57 @@ def r5_names(ctx):
         r.check(ok, 'trailers|need-eos', ih.file, 'trailers without END_STREAM are a stream error')
 
 
+def r6_malformed_is_stream_error(ctx, rid='C13.R6'):
+    r = ctx.rule(rid, 'PASS', 'a header block flagged malformed by the loader is a stream error on every path, in whichever fragment the offending field sits (decode_frame under the assumption load_hpack = Err(MalformedMessage))')
+    F = ctx.facts
+    d = r.fn('codec::framed_read::decode_frame')
+    if not d:
+        return
+    sws = core.all_switches(F, d)
+
+    def from_load(sw):
+        return sw is not None and sw.kind == 'variant' and any(x[0] == 'call' and x[1].endswith('::load_hpack') for x in walk(sw.subject))
+    forced = [0]
+
+    def on_edge(us, bi, s2):
+        sw = sws.get(bi)
+        if not from_load(sw):
+            return us
+        lab = sw.labels.get(s2)
+        if not lab:
+            return None
+        if sw.adt == 'std::result::Result':
+            if 'Err' not in lab:
+                return None
+            return 1
+        if sw.adt == 'frame::Error':
+            if 'MalformedMessage' not in lab:
+                return None
+            forced[0] += 1
+            return 2
+        return us
+    try:
+        exits, ins, parent = core.scan(d, 0, None, None, on_edge, cap=128)
+    except core.Cap as e:
+        r.bad('malformed|cap', d.file, str(e))
+        return
+    n = 0
+    for (bi, us, rc, st) in exits:
+        if us != 2:
+            continue
+        n += 1
+        ok = rc == 'Err' or rc.startswith('Err')
+        r.check(ok, 'malformed|exit|%s' % rc.split(':')[0], d.loc(bi),
+                'decode_frame exit %s after load_hpack reported MalformedMessage%s' % (rc, '' if ok else ' — the frame is kept / decoding continues: the flag is a local of the loader, so the final fragment loads Ok and the malformed message is delivered'),
+                witness=core.compress_path(d, [x['bb'] for x in core.witness_path(d, parent, bi, st)]))
+    r.check(forced[0] >= 3 and n >= 1, 'malformed|sites', d.file, 'MalformedMessage arms of %d load_hpack results explored, %d exit state(s)' % (forced[0], n))
+
+
 def run(ctx):
+    r6_malformed_is_stream_error(ctx)
+    from .. import tstate
+    r7 = ctx.rule('C13.R7', 'TSTATE', 'a locally detected malformed message ends the stream as an error from every state (15 rows): the reader never sees a clean end-of-stream after our own reset')
+    tstate.local_reset_rows(r7, ctx.facts)
     r1_pseudo(ctx)
     r2_filters(ctx)
     r3_outbound_filtered(ctx)
